@@ -180,6 +180,47 @@ def explore(ctx):
                     want_file = os.path.join(d, names[-1])
                     for c in (False, True):
                         expect_at(ctx, asm, main, c, want_file, fault_line, cls, fault, label=' (include depth {})'.format(depth))
+        # ---- a fault BEHIND an include_bytes directive of the same file (top level and included), and behind an include
+        for k in range(2 if ctx.quick() else 10):
+            for depth in (0, 1, 2):
+                for cls in FAULTS:
+                    d = os.path.join(tmp, 'b{}_{}_{}'.format(k, depth, cls))
+                    os.makedirs(d)
+                    fault = FAULTS[cls][(k + 3 * depth) % len(FAULTS[cls])]
+                    with open(os.path.join(d, 'blob.bin'), 'wb') as f:
+                        f.write(bytes([1, 2, 3, 4]))
+                    names = ['main.asm'] + ['inc{}.asm'.format(i) for i in range(1, depth + 1)]
+                    for i, n in enumerate(names):
+                        body = ['m{}_{}:'.format(i, k), 'addi x8, x8, {}'.format(i + 1)]
+                        if i + 1 < len(names):
+                            body.append('include ' + names[i + 1])
+                            body.append('nop')
+                        else:
+                            body += ['include_bytes blob.bin', 'nop', fault] + (['align 4'] if cls in DATA_CLASSES else []) + ['nop']
+                            fault_line = body.index(fault) + 1
+                        with open(os.path.join(d, n), 'w') as f:
+                            f.write('\n'.join(body) + '\n')
+                    for c in (False, True):
+                        expect_at(ctx, asm, os.path.join(d, 'main.asm'), c, os.path.join(d, names[-1]), fault_line, cls, fault,
+                                  label=' (behind include_bytes, include depth {})'.format(depth))
+                    # and a fault in the PARENT behind the include of a file that holds an include_bytes
+                    if depth >= 1:
+                        d2 = d + '_p'
+                        shutil.copytree(d, d2)
+                        with open(os.path.join(d2, names[-1]), 'w') as f:
+                            f.write('include_bytes blob.bin\nnop\n')
+                        parent = names[-2]
+                        with open(os.path.join(d2, parent)) as f:
+                            pl = f.read().split('\n')
+                        pl = [x for x in pl if x != '']
+                        pl.append(fault)
+                        if cls in DATA_CLASSES:
+                            pl.append('align 4')
+                        with open(os.path.join(d2, parent), 'w') as f:
+                            f.write('\n'.join(pl) + '\n')
+                        for c in (False, True):
+                            expect_at(ctx, asm, os.path.join(d2, 'main.asm'), c, os.path.join(d2, parent), pl.index(fault) + 1, cls, fault,
+                                      label=' (parent, behind an include holding include_bytes)')
     finally:
         shutil.rmtree(tmp, ignore_errors=True)
     # ---- correspondence: the pass model must fail in the same place with the same class --------------------------------
